@@ -219,8 +219,18 @@ deriving Repr, Inhabited
 def nsNameLabelKey : String := "kubernetes.io/metadata.name"
 
 /-- `fmt.Sprintf("%v", labels)` of a Go map prints keys sorted: the pre-image of the variant hash -/
-def variantOf (l : Labels) : String :=
+def variantOfLabels (l : Labels) : String :=
   let sorted := l.mergeSort (fun a b => a.1 ≤ b.1)
   "map[" ++ " ".intercalate (sorted.map fun kv => kv.1 ++ ":" ++ kv.2) ++ "]"
+
+/-- `variantFromLabelsAndPorts`: what the evaluation reads from a pod of a given owner — its labels and its named
+container ports (`name/protocol/number` in the pod's order, protocol defaulted to TCP; nothing is appended when no port
+is named): the pre-image of the variant hash -/
+def variantOf (l : Labels) (ports : List CPort) : String :=
+  let named := (ports.filter fun c => c.name != "").map fun c => c.name ++ "/" ++ c.proto.toStr ++ "/" ++ toString c.port
+  -- `hex(pre-image) ++ hex(sha1 "")`: the constant suffix is modelled by the terminator `$`, so that one variant is
+  -- never a proper prefix of another (the cache deletes keys by substring)
+  (if named.isEmpty then variantOfLabels l
+   else variantOfLabels l ++ "[" ++ " ".intercalate named ++ "]") ++ "$"
 
 end Netpol
